@@ -54,6 +54,16 @@ def jobs_list(thorough):
     add("whfast/default/c17/barycentric/step", ["whfast", 0, 17, 3, "step"], "whfast_word 17", "wh")
     for c in (0, 3, 11):
         add("whfast/composition/c%d/step" % c, ["whfast", 2, c, 0, "step"], "whfast_composition_word %d" % c, "wh")
+    # round 2: modified-kick schemes, corrector2, DH/WHDS (three letters)
+    for row in range(4):
+        add("saba/0x%x/step" % (0x100 + row), ["saba", 0x100 + row, 0, 0, "step"], "saba_cm_word %d" % row, "wh")
+    for c in (0, 7):
+        add("whfast/modifiedkick/c%d/step" % c, ["whfast", 1, c, 0, "step"], "whfast_mk_word %d" % c, "wh")
+    add("whfast/modifiedkick/c7/corrector2/step", ["whfast", 1, 7, 100, "step"], "with_correctors 7 mk_kernel", "wh")
+    add("whfast/composition/c7/corrector2/step", ["whfast", 2, 7, 100, "step"], "with_correctors 7 comp_kernel", "wh")
+    for coord, nm in ((1, "dh"), (2, "whds")):
+        add("whfast/default/c0/%s/step" % nm, ["whfast", 0, 0, coord, "step"], "whfast_dh_word", "wh3", dts=both)
+        add("whfast/default/c0/%s/unsync" % nm, ["whfast", 0, 0, coord, "unsync"], "whfast_dh_word_unsync", "wh3")
     for code, nm in EOS_PLAIN.items():
         add("eos/phi0=%s/step" % nm, ["eos", code, 0, 2, "step"], "eos_outer_%s ++ eos_sync_%s" % (nm, nm), "eos_outer",
             dts=both if thorough or code in (1, 6) else (DT,))
@@ -114,6 +124,21 @@ def canon(ops, kind, extra, dt):
             else:
                 return None, "unexpected operator %s" % op
         return out, ""
+    if kind == "wh3":
+        last_k = None
+        for op, a in ops:
+            if op == "K":
+                out.append((0, F(a[0]) / fdt, F(0))); last_k = a[0]
+            elif op == "I":
+                out.append((1, F(a[0]) / fdt, F(0)))
+            elif op == "J":
+                out.append((2, F(a[0]) / fdt, F(0)))
+            elif op == "C":
+                if last_k is None or a[0] != last_k:
+                    return None, "com step %r does not follow a kepler step with the same argument" % a
+            else:
+                return None, "unexpected operator %s" % op
+        return out, ""
     if kind == "janus":
         for op, a in ops:
             if op not in ("JD", "JK"):
@@ -164,7 +189,7 @@ def same_word(traced, model, tol=F(1, 10 ** 12)):
 
 
 def model_words(exprs):
-    body = ("From Coq Require Import List ZArith.\nFrom RV Require Import Gen.Schemes C01.FreeAlg C01.Model.\n"
+    body = ("From Coq Require Import List ZArith.\nFrom RV Require Import Gen.Schemes C01.FreeAlg C01.Model C01.FreeAlgX C01.ModelX C01.FreeAlg3.\n"
             "Import ListNotations.\nOpen Scope Z_scope.\n")
     body += "".join("Eval vm_compute in (%s).\n" % e for e in exprs)
     ok, out = vlib.coq_eval("c01_words", body, timeout=300)
@@ -177,8 +202,18 @@ def model_words(exprs):
     for b in blocks:
         b = b.split("\n     :")[0]
         w = []
-        for m in re.finditer(r"\((true|false),\s*(-?\d+)(?:,\s*(-?\d+))?\)", b):
-            w.append((m.group(1) == "true", F(int(m.group(2)), SC), F(int(m.group(3)), SC) if m.group(3) else F(0)))
+        for m in re.finditer(r"\((true|false),\s*(-?\d+)(?:,\s*(-?\d+))?\)|\(([012]),\s*(-?\d+)\)|XE\s+(true|false)\s+\(?(-?\d+)\)?|XK\s+\(?(-?\d+)\)?\s+\(?(-?\d+)\)?", b):
+            if m.group(1):
+                w.append((m.group(1) == "true", F(int(m.group(2)), SC), F(int(m.group(3)), SC) if m.group(3) else F(0)))
+            elif m.group(4):
+                w.append((int(m.group(4)), F(int(m.group(5)), SC), F(0)))        # three-letter word (0 = K, 1 = I, 2 = J)
+            elif m.group(6):
+                w.append((m.group(6) == "true", F(int(m.group(7)), SC), F(0)))
+            else:
+                # modified kick exp(y B + v [B,[A,B]]): the library kicks with argument y*dt (the jerk is added to the acceleration
+                # beforehand); a pure commutator kick (y = 0, SABA CM) is interaction_step(cc*dt) on dt^2*jerk with jerk = C/2
+                y, vc = int(m.group(8)), int(m.group(9))
+                w.append((True, F(y, SC) if y != 0 else F(2 * vc, SC ** 3), F(0)))
         if not w and "[]" not in b:
             return None, "cannot parse a model word: " + b[:200]
         words.append(w)
